@@ -784,7 +784,11 @@ class Session:
         def ctor():
           self.ctor_runs = getattr(self, 'ctor_runs', 0) + 1
           return Opaque.get(7000 + self.ctor_runs - 1)
-        r = encode(self.cfg.singleton_value(op['key'], ctor if op['ctor'] else None), self.gin)
+        if op.get('_via_cfg') and op['ctor']:
+          # through the configurable `gin.singleton` reached under the scope name (what `@key/gin.singleton()` does)
+          r = encode(self.gin.get_configurable(op['key'] + '/gin.singleton')(ctor), self.gin)
+        else:
+          r = encode(self.cfg.singleton_value(op['key'], ctor if op['ctor'] else None), self.gin)
       elif name == 'macrolookup':
         r = encode(self.cfg.ParserDelegate().macro(op['name']), self.gin)
         if isinstance(r, dict) and 'const' in r:
